@@ -12,8 +12,11 @@ import (
 	"net/http/httptest"
 	"sort"
 	"strings"
+	"sync"
+	"time"
 	"unicode/utf8"
 
+	oaerrors "github.com/go-openapi/errors"
 	rt "github.com/go-openapi/runtime"
 	"github.com/go-openapi/runtime/client"
 	"github.com/go-openapi/runtime/middleware"
@@ -32,11 +35,15 @@ func init() {
 		Level: "exploration",
 		Rule: "generated descriptions (base path in {/, /api, /a/b}; 1..4 operations; path/query/header parameters, multi-valued query arrays, a JSON body, urlencoded or multipart form fields, file uploads; optional api-key security; produces json or text; success codes 200/201/202) " +
 			"served by Context.APIHandler on a real loopback httptest.Server and called through client.Runtime.Submit with hostile values (reserved URL bytes '/', '%', '+', ' ', '?', '#', ':', '*', '{', '}', ';', '=', '&', non-ASCII, NUL, boundary integers, repeated values, files of 0..70000 bytes). " +
-			"Oracle: equality of every received value with the supplied one, of the operation that ran, and of status/headers/body seen by the response reader with what the handler wrote. non-trivial = a call with >= 1 value containing a byte that needs escaping in its location; distinct by (operation shape, value tuple)",
+			"Request side also: octet-stream bodies handed over as io.ReadCloser, multipart operations called without their (optional) file or with two file parameters, a file sent although the first consumes entry is urlencoded, empty items in multi arrays, DELETE with a JSON body, path values spelling another parameter's placeholder. " +
+			"Response side: the handler answers through a Responder with a status in {declared success code, 200,201,202,204,400,401,403,404,409,422,500,503}, an echo header, a two-valued header, optionally an explicit Content-Type (parameters, upper case), and a json/text/octet-stream body of 0 bytes..1 MiB, optionally flushing the head and writing the body only once the caller's reader has been entered (a logical event, no timing); or returns an error carrying a 4xx/5xx code (status judged only). " +
+			"Oracle: equality of every received value with the supplied one, of the operation that ran, and of status/headers/body seen by the response reader with what the handler wrote (body read to EOF without error). non-trivial = a call with >= 1 value containing a byte that needs escaping in its location; distinct by (operation shape, value tuple)",
 		Assumptions: []string{
 			"path values that are empty or dot segments are not generated (outside the guarantee: paths are normalised by design)",
 			"header values are restricted to what HTTP can carry (no CR/LF/NUL/other controls, no leading/trailing whitespace)",
 			"JSON body strings are valid UTF-8 (JSON cannot carry other bytes); form file names are sent by base name",
+			"octet-stream request bodies have >= 1 byte (an empty stream is indistinguishable from an absent body); a 204 answer carries no body (HTTP)",
+			"when the handler returns an error value only the status reaching the reader is judged (the error document is written by the API's error responder: C08); the Content-Type seen by the reader is judged only when the handler set it itself (otherwise it is the negotiated one: C07/C08)",
 		},
 		MinNontrivial: 200,
 		Run:           run,
@@ -60,9 +67,17 @@ type Call struct {
 	File         string             `json:"file,omitempty"` // file name ("" = no file)
 	Body         map[string]mon.Q   `json:"body,omitempty"`
 	Key          mon.Q              `json:"key,omitempty"`
+	RawLen       int                `json:"rawLen,omitempty"` // > 0: the body is an octet stream of this many bytes handed over as an io.ReadCloser
+	File2        string             `json:"file2,omitempty"`  // second file parameter "upload2" ("" = not sent)
+	File2Len     int                `json:"file2Len,omitempty"`
 	// what the handler answers
-	RespHeader mon.Q `json:"respHeader,omitempty"`
-	RespText   mon.Q `json:"respText,omitempty"`
+	RespHeader mon.Q  `json:"respHeader,omitempty"`
+	RespText   mon.Q  `json:"respText,omitempty"`
+	RespLen    int    `json:"respLen,omitempty"`   // deterministic filler of this many bytes follows RespText in the answer
+	RespCode   int    `json:"respCode,omitempty"`  // status the handler answers with (0 = the declared success code)
+	RespFlush  bool   `json:"respFlush,omitempty"` // the handler flushes the head and writes the body once the caller's reader has been entered
+	RespKind   string `json:"respKind,omitempty"`  // "" = a Responder writes the answer | "error" = the handler returns an error carrying RespCode
+	RespCT     mon.Q  `json:"respCT,omitempty"`    // Content-Type set by the handler itself ("" = left to the middleware)
 }
 
 // Case is a description plus calls.
@@ -77,6 +92,9 @@ type received struct {
 	bound map[string]interface{}
 	files map[string]string
 	ran   int
+	// response side (written by the Responder)
+	noFlusher   bool
+	gateTimeout bool
 }
 
 type sut struct {
@@ -84,6 +102,65 @@ type sut struct {
 	got  *received
 	next *Call
 	rtm  *client.Runtime
+	// gate is closed when the caller's response reader is entered (or Submit has returned); done when the Responder has finished
+	gate     chan struct{}
+	gateOnce *sync.Once
+	done     chan struct{}
+}
+
+func (s *sut) openGate() { s.gateOnce.Do(func() { close(s.gate) }) }
+
+const (
+	octetMime   = "application/octet-stream"
+	gateTimeout = 20 * time.Second // watchdog only
+)
+
+// rawConsumer is the server-side consumer of octet-stream bodies: the untyped binder hands it a map target.
+var rawConsumer = rt.ConsumerFunc(func(r io.Reader, v interface{}) error {
+	b, err := io.ReadAll(r)
+	if err != nil {
+		return err
+	}
+	if mp, ok := v.(*map[string]interface{}); ok {
+		*mp = map[string]interface{}{"raw": string(b)}
+		return nil
+	}
+	return fmt.Errorf("c04 raw consumer: unexpected target %T", v)
+})
+
+// respFiller is the deterministic tail of a sized answer: printable text, or arbitrary bytes for octet-stream answers.
+func respFiller(n int, binary bool) string {
+	if n <= 0 {
+		return ""
+	}
+	const alpha = "abcdefghijklmnopqrstuvwxyzABCDEFGHIJKLMNOPQRSTUVWXYZ0123456789 <>&\"'\\/-_.,;:"
+	b := make([]byte, n)
+	for i := range b {
+		if binary {
+			b[i] = byte(i*13 + i/251 + i/65521)
+		} else {
+			b[i] = alpha[(i+i/61+i/4099)%len(alpha)]
+		}
+	}
+	return string(b)
+}
+
+func producesOctet(op *gen.Op) bool { return len(op.Produces) > 0 && op.Produces[0] == octetMime }
+func producesText(op *gen.Op) bool  { return len(op.Produces) > 0 && op.Produces[0] == "text/plain" }
+
+// respBody is what the handler writes for the call.
+func respBody(call *Call, op *gen.Op) string {
+	return string(call.RespText) + respFiller(call.RespLen, producesOctet(op))
+}
+
+func respCode(call *Call, op *gen.Op) int {
+	if call.RespCode != 0 {
+		return call.RespCode
+	}
+	if op.SuccessCode != 0 {
+		return op.SuccessCode
+	}
+	return 200
 }
 
 func fileContent(n int) []byte {
@@ -105,6 +182,8 @@ func build(c *Case) (*sut, error) {
 	api.RegisterConsumer("multipart/form-data", rt.DiscardConsumer)
 	api.RegisterProducer("text/plain", rt.TextProducer())
 	api.RegisterConsumer("application/x-yaml", yamlpc.YAMLConsumer())
+	api.RegisterConsumer(octetMime, rawConsumer)
+	api.RegisterProducer(octetMime, rt.ByteStreamProducer())
 	api.RegisterAuth("key", security.APIKeyAuth("X-Api-Key", "header", func(tok string) (interface{}, error) { return "P:" + tok, nil }))
 	for i := range c.Desc.Ops {
 		op := c.Desc.Ops[i]
@@ -124,19 +203,45 @@ func build(c *Case) (*sut, error) {
 				}
 			}
 			call := s.next
+			got, gate, done := s.got, s.gate, s.done
+			if call.RespKind == "error" {
+				close(done)
+				return nil, oaerrors.New(int32(respCode(call, &op)), "refused: %s", string(call.RespText))
+			}
 			return middleware.ResponderFunc(func(rw http.ResponseWriter, pr rt.Producer) {
+				defer close(done)
 				rw.Header().Set("X-Echo", string(call.RespHeader))
 				rw.Header().Add("X-Multi", "one")
 				rw.Header().Add("X-Multi", "two")
-				code := op.SuccessCode
-				if code == 0 {
-					code = 200
+				if call.RespCT != "" {
+					rw.Header().Set("Content-Type", string(call.RespCT))
 				}
+				code := respCode(call, &op)
 				rw.WriteHeader(code)
-				if len(op.Produces) > 0 && op.Produces[0] == "text/plain" {
-					_ = pr.Produce(rw, string(call.RespText))
-				} else {
-					_ = pr.Produce(rw, map[string]string{"t": string(call.RespText)})
+				if code == http.StatusNoContent {
+					return
+				}
+				if call.RespFlush {
+					// the head leaves now; the body is written only once the caller's reader has been entered
+					if fl, ok := rw.(http.Flusher); ok {
+						fl.Flush()
+						select {
+						case <-gate:
+						case <-time.After(gateTimeout):
+							got.gateTimeout = true
+						}
+					} else {
+						got.noFlusher = true
+					}
+				}
+				body := respBody(call, &op)
+				switch {
+				case producesText(&op):
+					_ = pr.Produce(rw, body)
+				case producesOctet(&op):
+					_ = pr.Produce(rw, []byte(body))
+				default:
+					_ = pr.Produce(rw, map[string]string{"t": body})
 				}
 			}), nil
 		}))
@@ -166,9 +271,39 @@ type seen struct {
 	echo    string
 	multi   []string
 	ct      string
+	cts     []string
 	body    []byte
+	readErr error
 	consErr error
 	value   interface{}
+	ran     int
+}
+
+// respFeature names what is special about the scripted answer ("" for the plain small 2xx answers).
+func respFeature(call *Call, op *gen.Op) string {
+	var fs []string
+	if call.RespKind == "error" {
+		fs = append(fs, "error-result")
+	}
+	if call.RespCode != 0 || respCode(call, op) == http.StatusNoContent {
+		fs = append(fs, fmt.Sprintf("status-%d", respCode(call, op)))
+	}
+	switch {
+	case call.RespLen >= 16384:
+		fs = append(fs, "large-body")
+	case call.RespLen > 0:
+		fs = append(fs, "sized-body")
+	}
+	if call.RespFlush {
+		fs = append(fs, "head-flushed-first")
+	}
+	if call.RespCT != "" {
+		fs = append(fs, "explicit-content-type")
+	}
+	if producesOctet(op) {
+		fs = append(fs, "octet-stream")
+	}
+	return strings.Join(fs, "+")
 }
 
 func runCase(m *mon.M, c *Case) {
@@ -184,6 +319,7 @@ func runCase(m *mon.M, c *Case) {
 		one := &Case{Desc: c.Desc, Auth: c.Auth, Calls: []Call{*call}}
 		*s.got = received{}
 		s.next = call
+		s.gate, s.gateOnce, s.done = make(chan struct{}), &sync.Once{}, make(chan struct{})
 		sn := &seen{}
 		params := rt.ClientRequestWriterFunc(func(req rt.ClientRequest, _ strfmt.Registry) error {
 			for k, v := range call.Path {
@@ -206,6 +342,12 @@ func runCase(m *mon.M, c *Case) {
 			}
 			for k, v := range call.Form {
 				_ = req.SetFormParam(k, mon.SQ(v)...)
+			}
+			if call.File2 != "" {
+				_ = req.SetFileParam("upload2", &upFile{name: call.File2, r: bytes.NewReader(fileContent(call.File2Len))})
+			}
+			if call.RawLen > 0 {
+				_ = req.SetBodyParam(io.NopCloser(bytes.NewReader(fileContent(call.RawLen))))
 			}
 			if call.File != "" {
 				if call.FileSkip > 0 {
@@ -254,17 +396,27 @@ func runCase(m *mon.M, c *Case) {
 			})
 		}
 		reader := rt.ClientResponseReaderFunc(func(resp rt.ClientResponse, cons rt.Consumer) (interface{}, error) {
+			sn.ran++
+			s.openGate() // the caller's reader has been entered: a handler that flushed its head writes the body now
 			sn.code = resp.Code()
 			sn.echo = resp.GetHeader("X-Echo")
 			sn.multi = resp.GetHeaders("X-Multi")
 			sn.ct = resp.GetHeader("Content-Type")
-			b, _ := io.ReadAll(resp.Body())
-			sn.body = b
-			if len(op.Produces) > 0 && op.Produces[0] == "text/plain" {
+			sn.cts = append([]string(nil), resp.GetHeaders("Content-Type")...)
+			b, rerr := io.ReadAll(resp.Body())
+			sn.body, sn.readErr = b, rerr
+			switch {
+			case call.RespKind == "error" || sn.code == http.StatusNoContent || rerr != nil:
+				// nothing to decode (error document of the API's error responder / no body / body lost)
+			case producesText(op):
 				var str string
 				sn.consErr = cons.Consume(bytes.NewReader(b), &str)
 				sn.value = str
-			} else {
+			case producesOctet(op):
+				var buf bytes.Buffer
+				sn.consErr = cons.Consume(bytes.NewReader(b), &buf)
+				sn.value = buf.String()
+			default:
 				var mv map[string]string
 				sn.consErr = cons.Consume(bytes.NewReader(b), &mv)
 				sn.value = mv["t"]
@@ -279,15 +431,34 @@ func runCase(m *mon.M, c *Case) {
 			Params: params, Reader: reader, AuthInfo: auth}
 		var subErr error
 		pv, st := mon.Catch(func() { _, subErr = s.rtm.Submit(cop) })
+		s.openGate() // never leave a handler waiting
+		if call.RespFlush && s.got.ran > 0 {
+			select { // the Responder finishes before its observations are read
+			case <-s.done:
+			case <-time.After(gateTimeout):
+			}
+		}
 		m.Eval(1)
 		feat := c.feature(call)
+		rfeat := respFeature(call, op)
+		if rfeat != "" {
+			feat += "|resp=" + rfeat
+			for _, f := range strings.Split(rfeat, "+") {
+				m.Class("resp:" + f)
+			}
+		}
+		if (call.File != "" || call.File2 != "") && len(op.Consumes) > 0 && op.Consumes[0] == "application/x-www-form-urlencoded" {
+			// one input class of its own (known finding, shared with C11): the client labels the multipart
+			// document it sends "application/x-www-form-urlencoded; boundary=..." when that type is listed first
+			feat = "file-sent-while-urlencoded-is-listed-first"
+		}
 		if needsEscaping(call) {
 			m.NT(opShape(op) + "|" + callKey(call))
 		}
 		descr := func() string {
 			cb, _ := json.Marshal(call)
 			ob, _ := json.Marshal(op)
-			return fmt.Sprintf("op=%s call=%s -> submitErr=%v handlerRan=%d ranOp=%s bound=%v files=%v reader{code=%d echo=%q multi=%v ct=%q body=%.80q consumeErr=%v}", ob, cb, subErr, s.got.ran, s.got.op, s.got.bound, s.got.files, sn.code, sn.echo, sn.multi, sn.ct, sn.body, sn.consErr)
+			return fmt.Sprintf("op=%s call=%s -> submitErr=%v handlerRan=%d ranOp=%s bound=%.600v files=%v reader{ran=%d code=%d echo=%q multi=%v ct=%q bodyLen=%d body=%.80q readErr=%v consumeErr=%v} answerLen=%d", ob, cb, subErr, s.got.ran, s.got.op, s.got.bound, s.got.files, sn.ran, sn.code, sn.echo, sn.multi, sn.cts, len(sn.body), sn.body, sn.readErr, sn.consErr, len(respBody(call, op)))
 		}
 		if pv != nil {
 			m.Violate("panic/"+feat, fmt.Sprintf("%v\n%s\n%s", pv, st, descr()), one)
@@ -309,16 +480,39 @@ func runCase(m *mon.M, c *Case) {
 			m.Violate("value-differs/"+bad+"/"+feat, bad+" ; "+descr(), one)
 			continue
 		}
-		code := op.SuccessCode
-		if code == 0 {
-			code = 200
+		if s.got.gateTimeout || s.got.noFlusher {
+			m.Class("flush-not-exercised") // watchdog / no Flusher: the flushed shape did not take place; the answer is judged all the same
+		}
+		code := respCode(call, op)
+		wantBody := respBody(call, op)
+		if code == http.StatusNoContent {
+			wantBody = ""
 		}
 		switch {
+		case sn.ran != 1:
+			m.Violate(fmt.Sprintf("reader-ran-%d-times/%s", sn.ran, feat), descr(), one)
 		case sn.code != code:
 			m.Violate("response-status-differs/"+feat, descr(), one)
+		case call.RespKind == "error":
+			// the handler returned an error value: its status reached the reader; the document is the error responder's
+			if sn.readErr != nil {
+				m.Violate("response-body-read-error/"+feat, descr(), one)
+			} else {
+				m.Class("agreed-error-status")
+			}
 		case sn.echo != string(call.RespHeader) || strings.Join(sn.multi, ",") != "one,two":
 			m.Violate("response-header-differs/"+feat, descr(), one)
-		case sn.consErr != nil || fmt.Sprint(sn.value) != string(call.RespText):
+		case call.RespCT != "" && (sn.ct != string(call.RespCT) || len(sn.cts) != 1 || sn.cts[0] != string(call.RespCT)):
+			m.Violate("response-content-type-differs/"+feat, descr(), one)
+		case sn.readErr != nil:
+			m.Violate("response-body-read-error/"+feat, descr(), one)
+		case code == http.StatusNoContent:
+			if len(sn.body) != 0 {
+				m.Violate("response-body-differs/"+feat, descr(), one)
+			} else {
+				m.Class("agreed")
+			}
+		case sn.consErr != nil || fmt.Sprint(sn.value) != wantBody:
 			m.Violate("response-body-differs/"+feat, descr(), one)
 		default:
 			m.Class("agreed")
@@ -395,6 +589,25 @@ func compareValues(call *Call, got *received) string {
 		if got.files["upload"] != want {
 			return "file"
 		}
+	} else if _, ok := got.files["upload"]; ok {
+		return "file-not-sent"
+	}
+	if call.File2 != "" {
+		want := fmt.Sprintf("%s:%x", baseName(call.File2), mon.Hash64(string(fileContent(call.File2Len))))
+		if got.files["upload2"] != want {
+			return "second-file"
+		}
+	} else if _, ok := got.files["upload2"]; ok {
+		return "second-file-not-sent"
+	}
+	if call.RawLen > 0 {
+		gb, ok := got.bound["body"].(map[string]interface{})
+		if !ok {
+			return "octet-body"
+		}
+		if raw, ok := gb["raw"].(string); !ok || raw != string(fileContent(call.RawLen)) {
+			return "octet-body"
+		}
 	}
 	if call.Body != nil {
 		gb, ok := got.bound["body"].(map[string]interface{})
@@ -439,7 +652,21 @@ func (c *Case) feature(call *Call) string {
 			if call.Body != nil {
 				fs = append(fs, "json-body")
 			}
+		case octetMime:
+			fs = append(fs, "octet-body")
 		}
+		if len(op.Consumes) > 1 && op.Consumes[1] == "multipart/form-data" {
+			fs = append(fs, "or-multipart")
+		}
+		if op.Method == "DELETE" && call.Body != nil {
+			fs = append(fs, "delete")
+		}
+	}
+	if call.File2 != "" {
+		fs = append(fs, "two-files")
+	}
+	if len(op.Consumes) > 0 && (op.Consumes[0] == "multipart/form-data" || len(op.Consumes) > 1 && op.Consumes[1] == "multipart/form-data") && call.File == "" && call.File2 == "" {
+		fs = append(fs, "no-file")
 	}
 	return strings.Join(fs, "+")
 }
@@ -493,7 +720,7 @@ func callKey(c *Call) string {
 
 // ---------- generation ----------
 
-var atoms = []string{"/", "%", "+", " ", "?", "#", ":", "*", "{", "}", ";", "=", "&", "é", "\x00", "\xff", "a", "b", "xyz", "%2F", "%25", "..", ".", "~", "\"", "'", "<", ">", "\\", "|", "^", "`", "[", "]", "@", "!", "$", ",", "(", ")", "\t", "日本", "{id}"}
+var atoms = []string{"/", "%", "+", " ", "?", "#", ":", "*", "{", "}", ";", "=", "&", "é", "\x00", "\xff", "a", "b", "xyz", "%2F", "%25", "..", ".", "~", "\"", "'", "<", ">", "\\", "|", "^", "`", "[", "]", "@", "!", "$", ",", "(", ")", "\t", "日本", "{id}", "{p0}", "{p1}"}
 
 func hostile(r *rand.Rand) string {
 	n := 1 + r.Intn(4)
@@ -548,7 +775,7 @@ func genDesc(r *rand.Rand) (gen.Desc, bool) {
 	}
 	nops := 1 + r.Intn(4)
 	for i := 0; i < nops; i++ {
-		op := gen.Op{ID: fmt.Sprintf("op%d", i), SuccessCode: []int{200, 200, 201, 202}[r.Intn(4)]}
+		op := gen.Op{ID: fmt.Sprintf("op%d", i), SuccessCode: []int{200, 200, 201, 202, 200, 201, 204}[r.Intn(7)]}
 		tpl := fmt.Sprintf("/r%d", i)
 		np := r.Intn(3)
 		for k := 0; k < np; k++ {
@@ -581,9 +808,19 @@ func genDesc(r *rand.Rand) (gen.Desc, bool) {
 		if r.Intn(4) == 0 { // an array carried in one header line
 			op.Params = append(op.Params, gen.Param{Name: []string{"X-Labels", "x-labels-lower", "X-Shard-IDs"}[r.Intn(3)], In: "header", Type: "array", ItemsType: "string", CollectionFormat: []string{"csv", "pipes"}[r.Intn(2)]})
 		}
-		switch r.Intn(5) {
-		case 0: // JSON body, on some operations alternatively YAML (the same route sees changing media types)
+		switch r.Intn(7) {
+		case 5: // an octet-stream body
 			op.Method = methodsWithBody[r.Intn(3)]
+			op.Consumes = []string{octetMime}
+			op.Params = append(op.Params, gen.Param{Name: "body", In: "body", Required: true})
+		case 6: // multipart form with two file parameters
+			op.Method = methodsWithBody[r.Intn(3)]
+			op.Consumes = []string{"multipart/form-data"}
+			op.Params = append(op.Params, gen.Param{Name: "f0", In: "formData", Type: "string"},
+				gen.Param{Name: "upload", In: "formData", Type: "file"},
+				gen.Param{Name: "upload2", In: "formData", Type: "file"})
+		case 0: // JSON body, on some operations alternatively YAML (the same route sees changing media types)
+			op.Method = []string{"POST", "PUT", "PATCH", "DELETE"}[r.Intn(4)]
 			op.Consumes = []string{"application/json"}
 			if r.Intn(2) == 0 {
 				op.Consumes = []string{"application/json", "application/x-yaml"}
@@ -597,15 +834,21 @@ func genDesc(r *rand.Rand) (gen.Desc, bool) {
 		case 2: // multipart form with a file
 			op.Method = methodsWithBody[r.Intn(3)]
 			op.Consumes = []string{"multipart/form-data"}
+			if r.Intn(4) == 0 { // urlencoded is listed first: a call that carries a file must still go out as multipart
+				op.Consumes = []string{"application/x-www-form-urlencoded", "multipart/form-data"}
+			}
 			op.Params = append(op.Params, gen.Param{Name: "f0", In: "formData", Type: "string"},
 				gen.Param{Name: "f1", In: "formData", Type: "array", ItemsType: "string", CollectionFormat: "multi"},
 				gen.Param{Name: "upload", In: "formData", Type: "file"})
 		default:
 			op.Method = []string{"GET", "DELETE", "GET", "POST"}[r.Intn(4)]
 		}
-		if r.Intn(3) == 0 {
+		switch r.Intn(6) {
+		case 0, 1:
 			op.Produces = []string{"text/plain"}
-		} else {
+		case 2:
+			op.Produces = []string{octetMime}
+		default:
 			op.Produces = []string{"application/json"}
 		}
 		d.Ops = append(d.Ops, op)
@@ -637,6 +880,9 @@ func genCall(r *rand.Rand, d *gen.Desc, oi int) Call {
 				for i := 0; i < n; i++ {
 					l = append(l, mon.Q(strings.ReplaceAll(hostile(r), "\x00", "0")+"v"))
 				}
+				if n >= 2 && r.Intn(4) == 0 {
+					l[r.Intn(n)] = "" // an empty item between/next to non-empty ones is a value like any other
+				}
 				c.Query[p.Name] = l
 			case p.Type == "integer":
 				c.Query[p.Name] = []mon.Q{mon.Q([]string{"0", "-1", "9223372036854775807", "-9223372036854775808", "42"}[r.Intn(5)])}
@@ -662,6 +908,14 @@ func genCall(r *rand.Rand, d *gen.Desc, oi int) Call {
 			c.Header[p.Name] = mon.Q(headerValue(r))
 		case "formData":
 			if p.Type == "file" {
+				if r.Intn(3) == 0 {
+					continue // the (optional) file is not sent: a fields-only form
+				}
+				if p.Name == "upload2" {
+					c.File2 = []string{"second.txt", "dir/c.bin", "a.txt"}[r.Intn(3)]
+					c.File2Len = []int{0, 1, 513, 4096, 70000}[r.Intn(5)]
+					continue
+				}
 				c.File = []string{"a.txt", "dir/b.bin", "sp ace.dat", "é.bin"}[r.Intn(4)]
 				c.FileLen = []int{0, 1, 511, 512, 513, 4096, 70000}[r.Intn(7)]
 				if c.FileLen > 1 && r.Intn(3) == 0 {
@@ -678,11 +932,18 @@ func genCall(r *rand.Rand, d *gen.Desc, oi int) Call {
 				for i := 0; i < n; i++ {
 					l = append(l, mon.Q(hostile(r)+"f"))
 				}
+				if n >= 2 && r.Intn(4) == 0 {
+					l[r.Intn(n)] = ""
+				}
 				c.Form[p.Name] = l
 			} else {
 				c.Form[p.Name] = []mon.Q{mon.Q(hostile(r) + "f")}
 			}
 		case "body":
+			if len(op.Consumes) > 0 && op.Consumes[0] == octetMime {
+				c.RawLen = []int{1, 2, 511, 4096, 65536, 70001}[r.Intn(6)]
+				continue
+			}
 			c.BodyAsReader = r.Intn(3) == 0
 			c.Body = map[string]mon.Q{"s": mon.Q(utf8Value(r)), "t": mon.Q(utf8Value(r))}
 			if len(op.Consumes) > 1 {
@@ -700,7 +961,64 @@ func genCall(r *rand.Rand, d *gen.Desc, oi int) Call {
 			}
 		}
 	}
+	genAnswer(r, op, &c)
 	return c
+}
+
+var answerCodes = []int{200, 201, 202, 204, 400, 401, 403, 404, 409, 422, 500, 503}
+
+// sizes around the client's 4 KiB read buffer, beyond what travels with the head, and beyond the socket buffers
+var (
+	answerSizesSmall = []int{1, 1000, 4095, 4096, 4097}
+	answerSizesMid   = []int{16384, 65536, 65537}
+	answerSizesBig   = []int{131072, 262144, 1048576}
+)
+
+func answerSize(r *rand.Rand) int {
+	switch k := r.Intn(10); {
+	case k < 5:
+		return answerSizesSmall[r.Intn(len(answerSizesSmall))]
+	case k < 8:
+		return answerSizesMid[r.Intn(len(answerSizesMid))]
+	default:
+		return answerSizesBig[r.Intn(len(answerSizesBig))]
+	}
+}
+
+// genAnswer scripts what the handler answers: most answers stay the small 2xx ones, the others vary one or more of
+// status, size, the moment the body is written, the way the handler answers and the Content-Type it sets.
+func genAnswer(r *rand.Rand, op *gen.Op, c *Call) {
+	if r.Intn(10) == 0 {
+		c.RespText = "" // a 0-byte text / an empty JSON string
+	}
+	if r.Intn(4) == 0 {
+		c.RespCode = answerCodes[r.Intn(len(answerCodes))]
+	}
+	if r.Intn(8) == 0 {
+		c.RespLen = answerSize(r)
+	}
+	if r.Intn(8) == 0 {
+		c.RespFlush = true
+		if c.RespLen == 0 && r.Intn(2) == 0 {
+			c.RespLen = answerSize(r)
+		}
+	}
+	if r.Intn(16) == 0 {
+		c.RespKind = "error"
+		c.RespCode = []int{400, 401, 403, 404, 409, 422, 500, 503}[r.Intn(8)]
+		c.RespLen, c.RespFlush = 0, false
+		return
+	}
+	if r.Intn(8) == 0 {
+		switch {
+		case producesText(op):
+			c.RespCT = mon.Q([]string{"text/plain; charset=utf-8", "text/plain;charset=UTF-8", "TEXT/PLAIN", "text/plain; format=flowed; charset=\"utf-8\""}[r.Intn(4)])
+		case producesOctet(op):
+			c.RespCT = mon.Q([]string{"application/octet-stream; name=\"x y.bin\"", "Application/Octet-Stream"}[r.Intn(2)])
+		default:
+			c.RespCT = mon.Q([]string{"application/json; charset=utf-8", "application/json;version=2", "Application/JSON", "application/json; profile=\"http://x/y;z\""}[r.Intn(4)])
+		}
+	}
 }
 
 func run(m *mon.M) {
